@@ -133,6 +133,7 @@ class Result:
         self.seconds = 0.0
         self.model = None
         self.detail = ""
+        self.second = None
 
     @property
     def discharged(self):
@@ -141,8 +142,12 @@ class Result:
         return self.verdict == "unsat"
 
 
-def discharge(obls, budget_s=None, use_cvc5=True, retry=True):
+def discharge(obls, budget_s=None, use_cvc5=True, retry=True, second_opinion=None):
+    """second_opinion (thorough tier; default: env VERIF_TIER == thorough): every obligation z3 discharged is also given to
+    cvc5; its verdict is recorded (`Result.second`) - a cvc5 `sat` against z3's `unsat` is a solver disagreement and raises."""
     budget_s = budget_s or BUDGET_S
+    if second_opinion is None:
+        second_opinion = os.environ.get("VERIF_TIER") == "thorough" or os.environ.get("CV_SECOND_OPINION") == "1"
     results = [Result(ob, to_smt2(ob)) for ob in obls]
     jobs = []
     for r in results:
@@ -178,4 +183,13 @@ def discharge(obls, budget_s=None, use_cvc5=True, retry=True):
                 r.seconds += secs
                 if verdict in ("unsat", "sat"):
                     r.verdict, r.backend, r.model = verdict, "z3(retry)", model
+        if second_opinion:
+            todo = [r for r in results if r.kind != "canary" and r.verdict == "unsat" and r.backend.startswith("z3")]
+            futs = {ex.submit(_solve_cvc5, r.smt, 20): r for r in todo}
+            for fu in cf.as_completed(futs):
+                r = futs[fu]
+                verdict, secs, detail = fu.result()
+                r.second = verdict
+                if verdict == "sat":
+                    raise RuntimeError("solver disagreement on %s: z3 unsat, cvc5 sat" % r.name)
     return results
